@@ -142,20 +142,20 @@ Qed.
 (* a full transfer whose stream stops inside the body *)
 Lemma cont_full_eof : forall ws one_rr g a rdt p tz ser s0,
   msg_parse_ok g -> msg_parse_ok (group one_rr) ->
-  Forall (header_ok rdt) ws -> Forall plain (a ++ concat (map w_records ws)) ->
+  Forall (header_ok rdt) ws -> Forall plain (a ++ concat (map w_records ws)) -> quiet tz ->
   exists n, cont one_rr (loop (ast false rdt p tz ser s0) (g a)) ws = (Error eEOF p, n).
 Proof.
-  induction ws as [|w ws IH]; intros one_rr g a rdt p tz ser s0 Hg Hg1 Hh Hpl.
+  induction ws as [|w ws IH]; intros one_rr g a rdt p tz ser s0 Hg Hg1 Hh Hpl Hqt.
   - cbn [map concat] in Hpl. rewrite app_nil_r in Hpl. destruct Hg as (G1 & G2 & G3).
-    rewrite (loop_loopn _ _ _ (loopn_addrs _ _ _ _ _ _ _ (G2 a Hpl))). cbn. eauto.
+    rewrite (loop_loopn _ _ _ (loopn_addrs _ _ _ _ _ _ _ (G2 a Hpl) Hqt)). cbn. eauto.
   - cbn [map concat] in Hpl. apply Forall_app in Hpl. destruct Hpl as [Ha Hrest].
     destruct Hg as (G1 & G2 & G3).
-    rewrite (loop_loopn _ _ _ (loopn_addrs _ _ _ _ _ _ _ (G2 a Ha))).
+    rewrite (loop_loopn _ _ _ (loopn_addrs _ _ _ _ _ _ _ (G2 a Ha) Hqt)).
     cbn [cont]. unfold ast at 1. cbn [done]. fold (ast false rdt p (addrs tz (g a)) ser s0).
     inversion Hh as [|? ? Hw Hws]; subst.
     rewrite drive_cons by solve_req. unfold from_wire.
     rewrite process_running; [|apply running_ast|apply Hw|apply Hw]. cbn [m_answer].
-    destruct (IH one_rr (group one_rr) (w_records w) rdt p (addrs tz (g a)) ser s0 Hg1 Hg1 Hws Hrest) as [n Hn].
+    destruct (IH one_rr (group one_rr) (w_records w) rdt p (addrs tz (g a)) ser s0 Hg1 Hg1 Hws Hrest (quiet_addrs _ _ (G2 a Ha) Hqt)) as [n Hn].
     rewrite Hn. eauto.
 Qed.
 
@@ -182,7 +182,7 @@ Proof.
   unfold inbound_xfr, xfr_run. rewrite init_axfr. cbn [Z.eqb tAXFR tIXFR Pos.eqb]. rewrite drive_cons by solve_req.
   rewrite (first_message_axfr z0 ser w (soa_rr v) a Hw Hr) by (split; reflexivity).
   destruct (cont_full_eof ws' false (map single) a tAXFR z0 [] (match ser with Some sv => sv | None => 0 end)
-              (single (soa_rr v)) parse_single_ok parse_group_ok Hws Hpl) as [n Hn].
+              (single (soa_rr v)) parse_single_ok parse_group_ok Hws Hpl quiet_nil) as [n Hn].
   exists eEOF, n. exact Hn.
 Qed.
 
@@ -227,7 +227,7 @@ Proof.
       cbn [pub set_done set_txn set_pub].
       apply rrset_eqb_parts in Heq. destruct Heq as (_ & _ & Hcv & Hds).
       exists (s_ttl r), (s_data r). split; [|exact Hds].
-      unfold skey. rewrite Hnm, Hty, Hcv. rewrite look_zput, key_eqb_refl. reflexivity.
+      unfold skey, node_put. rewrite Hnm, Hty, Hcv. rewrite look_zput, key_eqb_refl. reflexivity.
     + destruct (soa_serial r) as [ss|]; [|inversion H; subst; left; reflexivity].
       cbn [incremental set_expecting set_delmode serial] in H.
       destruct (incremental s).
@@ -581,6 +581,8 @@ Proof.
       + exists tz', false. split; [exact Hl|exact Hz']. }
   destruct RUN as [tz' [e' [Hl Hz']]].
   destruct (fd_zeq_dels D1 _ tz' z1 (zeq_sym _ _ Hz') Hdels) as [z1' [Hd1' Hz1]].
+  assert (Hqt : quiet tz') by (apply (zeq_zone_of_quiet _ vi); [apply version_wf_last; assumption|exact Hz']).
+  assert (Hq1 : quiet z1') by (apply (quiet_dels _ _ _ Hd1' Hqt)).
   assert (Hvi : v_soa vi <> v_soa vn).
   { apply Hd. right. apply in_or_app. right. left. reflexivity. }
   (* the records up to the bad deletion run without error *)
@@ -591,7 +593,7 @@ Proof.
     unfold ist at 1. rewrite (loopn_dels _ _ _ z1') by assumption. reflexivity. }
   assert (Hbad : forall l, step l (ist false z0 z1' (v_serial vi) (single (soa_rr vn)) false true) (single r) =
                            (ist false z0 z1' (v_serial vi) (single (soa_rr vn)) false true, Some eDeleteNotExact)).
-  { intros l. unfold ist. rewrite step_plain_del by exact Hr. rewrite Hz1, Hdel. reflexivity. }
+  { intros l. unfold ist. rewrite step_plain_del by assumption. rewrite Hz1, Hdel. reflexivity. }
   assert (Hcat2 : a ++ concat (map w_records ws') = (diff_seqs v0 pre ++ soa_rr vi :: D1) ++ r :: rest).
   { rewrite Hcat, <- app_assoc. reflexivity. }
   destruct (cont_error_after ws' a _ _ r rest _ _ eDeleteNotExact Hrun Hws Hcat2 Hl2 eq_refl Hbad) as [n Hn].
